@@ -227,44 +227,52 @@ for _o in (0, 1, 2):
 
 # ----------------------------------------------------------------------------- intermediates
 _ITMD = [("t2_1", "ijab", "klcd"), ("t1_2", "ia", "jb"), ("t2_2", "ijab", "klcd"),
-         ("t3_2", "ijkabc", "lmndef"), ("t1_3", "ia", "kc"), ("p0_2_oo", "ij", "kl"),
-         ("p0_2_vv", "ab", "cd"), ("p0_3_ov", "ia", "jb"), ("t2eri_1", "ijka", "klmc"),
-         ("t2eri_3", "ijab", "klcd"), ("t2eri_A", "ijka", "lmnc"), ("t2sq", "iajb", "kcld"),
-         ("t2_1_re_residual", "ijab", "klcd"), ("t1_2_re_residual", "ia", "jb")]
+         ("t3_2", "ijkabc", "lmndef"), ("t4_2", "ijklabcd", "mnoiefgh"),
+         ("t1_3", "ia", "kc"), ("t2_3", "ijab", "klcd"),
+         ("t2_1_re_residual", "ijab", "klcd"), ("t1_2_re_residual", "ia", "jb"),
+         ("t2_2_re_residual", "ijab", "klcd"),
+         ("p0_2_oo", "ij", "kl"), ("p0_2_vv", "ab", "cd"), ("p0_3_oo", "ij", "kl"),
+         ("p0_3_ov", "ia", "jb"), ("p0_3_vv", "ab", "cd"),
+         ("t2eri_1", "ijka", "klmc"), ("t2eri_2", "ijka", "klmc"), ("t2eri_3", "ijab", "klcd"),
+         ("t2eri_4", "ijab", "klcd"), ("t2eri_5", "ijab", "klcd"), ("t2eri_6", "iabc", "jbcd"),
+         ("t2eri_7", "iabc", "kcde"), ("t2eri_A", "ijka", "lmnc"), ("t2eri_B", "iabc", "jdef"),
+         ("t2sq", "iajb", "kcld")]
+# full expansion costs seconds for these: thorough tier only
+_ITMD_HEAVY_FULL = ("t2_3", "p0_3_ov", "t2_2_re_residual")
+_ITMD_NO_SYMMETRY = ("t3_2", "t4_2", "t2_3")      # Term.symmetry is factorial in the indices
 for _name, _d, _alt in _ITMD:
     def _mk(name, d, alt):
-        heavy = name in ("t1_3", "p0_3_ov", "t3_2")
         for idx in (d, alt):
             for full in (True, False):
-                if heavy and full:
-                    continue
+                heavy = full and name in _ITMD_HEAVY_FULL
+                tier = "t" if (heavy or (idx == alt and full)) else "q"
 
-                def _mk2(idx, full):
+                def _mk2(idx, full, tier, heavy):
                     @tmpl(f"itmd.{name}.expand_itmd({idx},{'full' if full else 'once'})",
-                          "itmd", idx, tier="t" if (heavy or (idx == alt and full)) else "q",
-                          cost=2)
+                          "itmd", idx, tier=tier, cost=6 if heavy else 2)
                     def _(w):
                         from adcgen import Intermediates
                         return Intermediates().available[name].expand_itmd(
                             idx, fully_expand=full)
-                _mk2(idx, full)
+                _mk2(idx, full, tier, heavy)
 
         @tmpl(f"itmd.{name}.tensor({alt})", "itmd", alt)
         def _(w):
             from adcgen import Intermediates
             return Intermediates().available[name].tensor(alt)
 
-        @tmpl(f"itmd.{name}.tensor_symmetry", "itmd", None, tier="t" if heavy else "q")
-        def _(w):
-            from adcgen import Intermediates
-            sym = Intermediates().available[name].tensor_symmetry
-            return sorted((str(k), v) for k, v in sym.items())
-
-        if not heavy:
-            @tmpl(f"itmd.{name}.allowed_spin_blocks", "itmd", None, cost=2)
+        if name not in _ITMD_NO_SYMMETRY:
+            @tmpl(f"itmd.{name}.tensor_symmetry", "itmd", None)
             def _(w):
                 from adcgen import Intermediates
-                return sorted(Intermediates().available[name].allowed_spin_blocks)
+                sym = Intermediates().available[name].tensor_symmetry
+                return sorted((str(k), v) for k, v in sym.items())
+
+        @tmpl(f"itmd.{name}.allowed_spin_blocks", "itmd", None, cost=2,
+              tier="t" if name in ("t4_2", "t2_3", "t3_2") else "q")
+        def _(w):
+            from adcgen import Intermediates
+            return sorted(Intermediates().available[name].allowed_spin_blocks)
     _mk(_name, _d, _alt)
 
 
